@@ -461,6 +461,112 @@ func flattenPhi(v ssa.Value) []ssa.Value {
 // cursorAlts: the non-phi values that can flow into the lower bound.
 func cursorAlts(lo ssa.Value, fn *ssa.Function) []ssa.Value { return flattenPhi(lo) }
 
+// c05Range: the range requested from the node is the range asked for, also on retries.
+func c05Range(c *core.Ctx) {
+	const rule = "C05-range"
+	sx := core.NewSymx()
+	fn := c.MustFn(rule, "sync", "EVMDownloaderImplementation", "getEventsByBlockRangeWithRetry")
+	pub := c.MustFn(rule, "sync", "EVMDownloaderImplementation", "GetEventsByBlockRange")
+	gl := c.MustFn(rule, "sync", "EVMDownloaderImplementation", "GetLogs")
+	if fn == nil || pub == nil || gl == nil {
+		return
+	}
+	n := 0
+	core.Instrs(fn, func(i ssa.Instruction) {
+		call, ok := i.(*ssa.Call)
+		if !ok {
+			return
+		}
+		switch core.CallName(call) {
+		case "(*sync.EVMDownloaderImplementation).getEventsByBlockRangeWithRetry":
+			n++
+			a := call.Call.Args
+			ok := a[2] == ssa.Value(fn.Params[2]) && a[3] == ssa.Value(fn.Params[3]) && sx.Of(a[4]).String() == "(retryCount + const(1))"
+			c.Decide(ok, rule, fmt.Sprintf("sync.getEventsByBlockRangeWithRetry#recursive-retry-%d", n), call.Pos(),
+				"a retry re-requests the whole [fromBlock, toBlock] range with retryCount+1 (blocks already assembled are discarded by the return): "+sx.Of(a[2]).String()+", "+sx.Of(a[3]).String()+", "+sx.Of(a[4]).String())
+		case "(*sync.EVMDownloaderImplementation).GetLogs":
+			a := call.Call.Args
+			c.Decide(a[2] == ssa.Value(fn.Params[2]) && a[3] == ssa.Value(fn.Params[3]), rule, "sync.getEventsByBlockRangeWithRetry#GetLogs-range", call.Pos(), "logs are fetched for exactly [fromBlock, toBlock]")
+		}
+	})
+	for _, r := range core.Returns(pub) {
+		s := sx.Of(r.Results[0]).String()
+		c.Decide(s == "(*sync.EVMDownloaderImplementation).getEventsByBlockRangeWithRetry(d, ctx, fromBlock, toBlock, const(0))", rule, "sync.GetEventsByBlockRange#passthrough", r.Pos(), "public entry forwards its range, retry count 0: "+s)
+	}
+	// the filter query
+	core.Instrs(gl, func(i ssa.Instruction) {
+		if !strings.HasSuffix(core.CallName(i), ").FilterLogs") {
+			return
+		}
+		q := sx.Of(core.AsCall(i).Args[len(core.AsCall(i).Args)-1])
+		f := func(n string) string {
+			if q.Fields[n] == nil {
+				return "<unset>"
+			}
+			return q.Fields[n].String()
+		}
+		ok := q.Op == "lit" && strings.HasSuffix(f("FromBlock"), ", fromBlock)") && strings.HasPrefix(f("FromBlock"), "(*math/big.Int).SetUint64(") &&
+			strings.HasSuffix(f("ToBlock"), ", toBlock)") && strings.HasPrefix(f("ToBlock"), "(*math/big.Int).SetUint64(") && f("Addresses") == "d.addressesToQuery"
+		c.Decide(ok, rule, "sync.GetLogs#filter-query", i.Pos(), "FilterQuery{FromBlock: fromBlock, ToBlock: toBlock, Addresses: d.addressesToQuery}: "+q.String())
+	})
+}
+
+// c05Marker: the empty "last downloaded block" marker must not duplicate a block that was just delivered with events.
+func c05Marker(c *core.Ctx) {
+	const rule = "C05-marker"
+	fn := c.MustFn(rule, "sync", "EVMDownloader", "Download")
+	if fn == nil {
+		return
+	}
+	var reports, empties []*ssa.Call
+	core.Instrs(fn, func(i ssa.Instruction) {
+		if call, ok := i.(*ssa.Call); ok {
+			switch core.CallName(call) {
+			case "(*sync.EVMDownloader).reportBlocks":
+				reports = append(reports, call)
+			case "(*sync.EVMDownloader).reportEmptyBlock":
+				empties = append(empties, call)
+			}
+		}
+	})
+	// loop header: the block holding the cursor Phi
+	var loopHead *ssa.BasicBlock
+	for _, b := range fn.Blocks {
+		for _, ins := range b.Instrs {
+			if p, ok := ins.(*ssa.Phi); ok && p.Comment == "fromBlock" {
+				loopHead = b
+			}
+		}
+	}
+	n := 0
+	for _, r := range reports {
+		blocks := r.Call.Args[2]
+		for _, e := range empties {
+			sameIter := func(b *ssa.BasicBlock, s int) bool { return loopHead == nil || b.Succs[s] != loopHead }
+			if (&core.Walk{EdgeOK: sameIter, Target: func(i ssa.Instruction) bool { return i == ssa.Instruction(e) }}).From(core.After(r), nil) == nil {
+				continue
+			}
+			n++
+			num := e.Call.Args[3]
+			sx := core.NewSymx().Bind(blocks, "blocks").Bind(num, "N")
+			var guard []core.IfEdge
+			guard = append(guard, core.TermEdges(fn, sx, func(s string, _ *core.Term) bool {
+				return s == "((sync.EVMBlocks).Len(blocks) == const(0))" || s == "(len(blocks) == const(0))"
+			}, true)...)
+			guard = append(guard, core.TermEdges(fn, sx, func(s string, _ *core.Term) bool {
+				return s == "(blocks[((sync.EVMBlocks).Len(blocks) - const(1))].EVMBlockHeader.Num < N)" || s == "(blocks[(len(blocks) - const(1))].EVMBlockHeader.Num < N)"
+			}, true)...)
+			f := (&core.Walk{EdgeOK: func(b *ssa.BasicBlock, s int) bool { return sameIter(b, s) && core.Forbid(guard)(b, s) },
+				Target: func(i ssa.Instruction) bool { return i == ssa.Instruction(e) }}).From(core.After(r), nil)
+			c.Decide(f == nil, rule, fmt.Sprintf("sync.(*EVMDownloader).Download#empty-marker-after-report-%d", n), e.Pos(),
+				"after delivering `blocks`, the empty marker for block N is sent only when blocks is empty or its LAST block is below N (otherwise block N would be delivered twice)")
+		}
+	}
+	if n == 0 {
+		c.Hold(rule, "sync.(*EVMDownloader).Download#no-marker-after-report", "no empty marker follows a delivery in the same iteration")
+	}
+}
+
 func c05Cursor(c *core.Ctx) {
 	fn := c.MustFn("C05-cursor", "sync", "EVMDownloader", "Download")
 	if fn != nil {
@@ -480,6 +586,8 @@ func init() {
 			{ID: "C05-retry", Floor: 4, Run: c05Retry, Text: "[DOM]+flag threading: handleNewBlock returns only after success / cancel / ErrInconsistentState"},
 			{ID: "C05-restart", Floor: 3, Run: c05Restart, Text: "[PROV]+[DOM] Download(from = lastProcessed+1); reset after reorg"},
 			{ID: "C05-cursor", Floor: 1, Run: c05Cursor, Text: "[CURSOR] lower bound of each fetch is the loop-carried cursor"},
+			{ID: "C05-range", Floor: 4, Run: c05Range, Text: "[PROV] the requested range is the range asked for, also on hash-mismatch retries; filter query fields"},
+			{ID: "C05-marker", Floor: 1, Run: c05Marker, Text: "[DOM]+[PROV] empty marker after a delivery only when the delivery's last block is below the marker block"},
 		},
 	})
 }
